@@ -79,8 +79,10 @@ package dns
 
 // Verify's pre-checks: success implies the key is a zone key with protocol 3 whose tag, algorithm, class and
 // owner match the RRSIG, and the RRset is a single RRset of the covered type and class
-//@ func (*RRSIG).Verify [C10]
+//@ func (*RRSIG).Verify [C10 C16:keep]
 //@   opt no-safety
+// verifying reads the signature record: the canonical signer name is a local value, the record keeps its spelling
+//@   exit keep: same(rr.SignerName, old(rr.SignerName)) && rr.Hdr.Ttl == old(rr.Hdr.Ttl) && rr.OrigTtl == old(rr.OrigTtl) && rr.Labels == old(rr.Labels) [C10 C16]
 //@   requires rr != nil && k != nil
 //@   exit rrset: ret0 == nil ==> callres("IsRRset")
 //@   exit key: ret0 == nil ==> rr.Hdr.Class == k.Hdr.Class && rr.Algorithm == k.Algorithm && k.Protocol == 3 && (k.Flags / 256) % 2 == 1
